@@ -83,8 +83,16 @@ def main(argv):
                     crc, cout = sh([os.path.join(VERIF, 'check'), p, '--tier', tier], cwd=VERIF, timeout=7200,
                                    env=dict(os.environ, VERIF_EVIDENCE_DIR=os.path.join(SEEDED, '.evidence_scratch')))
                     viol = [l for l in cout.splitlines() if l.startswith('VIOLATION')]
+                    concrete = [v for v in viol if 'no-failing-input-found' not in v]
+                    reproduces = None
+                    if concrete and not all_checks:
+                        # the recorded replay must reproduce the failure on the changed tree (while the change is applied)
+                        rpath = concrete[0].split('replay=')[1].split()[0]
+                        rrc, rout = sh([os.path.join(VERIF, 'check'), p, '--replay', rpath], cwd=VERIF, timeout=1800,
+                                       env=dict(os.environ, VERIF_EVIDENCE_DIR=os.path.join(SEEDED, '.evidence_scratch')))
+                        reproduces = rrc == 1 and any(l.startswith('VIOLATION') for l in rout.splitlines())
                     return p, {'rc': crc, 'violations': viol[:5], 'wall_s': round(time.time() - t0, 1),
-                               'concrete': any('no-failing-input-found' not in v for v in viol),
+                               'concrete': bool(concrete), 'replay_reproduces': reproduces,
                                'tail': cout[-600:]}
                 if all_checks:
                     one(meta['property'])      # first alone: it rebuilds whatever the change invalidates
@@ -103,7 +111,9 @@ def main(argv):
             json.dump(res, fh, indent=1)
         rows.append(res)
         print(f"{sid}: applied={res['applied']} detected={res['detected']} "
-              + ' '.join(f"{p}:rc={c['rc']}{'(concrete)' if c['concrete'] else ''}" for p, c in res['checks'].items()),
+              + ' '.join(f"{p}:rc={c['rc']}{'(concrete)' if c['concrete'] else ''}"
+                         f"{'' if c.get('replay_reproduces') in (None, True) else '(REPLAY-DOES-NOT-REPRODUCE)'}"
+                         for p, c in res['checks'].items()),
               flush=True)
     # summary over everything that has a result
     lines = ['# Seeded changes: which checks catch which (generated by tools/run_seeded.py)', '',
@@ -113,7 +123,7 @@ def main(argv):
         if not os.path.exists(rp):
             continue
         r = json.load(open(rp))
-        by = '; '.join(f"{p}: exit {c['rc']}{', concrete replay' if c['concrete'] else (', no-failing-input-found' if c['violations'] else '')}"
+        by = '; '.join(f"{p}: exit {c['rc']}{(', concrete replay' + (' (reproduces)' if c.get('replay_reproduces') else ' (NOT reproduced by --replay)' if c.get('replay_reproduces') is False else '')) if c['concrete'] else (', no-failing-input-found' if c['violations'] else '')}"
                        for p, c in r['checks'].items())
         lines.append(f"| {sid} | {r['property']} | {r['applied']} | {'yes' if r['detected'] else 'NO'} | {by} |")
     with open(os.path.join(SEEDED, 'RESULTS.md'), 'w') as fh:
